@@ -207,12 +207,13 @@ theorem destroyWeights_st (env : Env) (hooks : List Hook) (ws : List Int) :
 @[simp] theorem destroyWeights_gone' (env : Env) (hooks : List Hook) (ws : List Int) : (destroyWeights env hooks ws).1.gone = env.gone := (destroyWeights_st ..).2
 attribute [simp] handleHooks_st handleHooks_gone
 
-/-- Teardown: either nothing reportable changes, or the environment is DONE and unlisted. -/
+/-- Teardown: either nothing reportable changes (and the request is refused or fails), or the
+    environment is DONE and unlisted (the result is ok, or the leftover error of the leave hooks). -/
 theorem teardown_st (env : Env) (hooks : List Hook) (f r1 r2 : Bool) (n : Nat) :
     ((teardown env hooks f r1 r2 n).1.st = env.st ∧ (teardown env hooks f r1 r2 n).1.gone = env.gone ∧
         (teardown env hooks f r1 r2 n).2.2 ≠ .ok) ∨
     (env.st ≠ .DONE ∧ (teardown env hooks f r1 r2 n).1.st = .DONE ∧ (teardown env hooks f r1 r2 n).1.gone = true ∧
-        (teardown env hooks f r1 r2 n).2.2 = .ok) := by
+        (teardown env hooks f r1 r2 n).2.2.moved = true) := by
   unfold teardown
   split
   · exact Or.inl ⟨rfl, rfl, by simp⟩
